@@ -40,6 +40,15 @@ MODULE_BLOCK = (
     "        finally:\n"
     "            context.write('>')\n"
     "    return decorate\n"
+    "def kdeco(fn):\n"
+    "    def decorate(context, *args, **kw):\n"
+    "        kw = dict(kw, injected='INJ')  # the wrapper decides which keyword arguments the def receives\n"
+    "        context.write('kdeco<')\n"
+    "        try:\n"
+    "            return fn(*args, **kw)\n"
+    "        finally:\n"
+    "            context.write('>')\n"
+    "    return decorate\n"
     "def rz(s):\n"
     "    import builtins\n"
     "    b = getattr(builtins, '_verif_boom', None)\n"
@@ -340,6 +349,8 @@ class Model:
 
     def invoke(self, d, defscope, pos, kw, caller):
         sig = inspect.signature(eval("lambda %s: None" % sig_src(d["sig"]), {"raiser": lambda: "rf", "zctx": self.context.get("zctx")}))
+        if d.get("decorator") == "kdeco":
+            kw = dict(kw, injected="INJ")  # what the decorator's wrapper passes on is what the def receives
         ba = sig.bind(*pos, **kw)  # TypeError for a wrong call: as Python
         ba.apply_defaults()
         local = dict(ba.arguments)
@@ -385,7 +396,7 @@ class Model:
             finally:
                 self.write(">")
         if d.get("decorator"):
-            self.write("deco<")
+            self.write("kdeco<" if d["decorator"] == "kdeco" else "deco<")
             try:
                 return self.plain(d, run_body)
             finally:
